@@ -210,6 +210,11 @@ pub fn finish(mut run: Run) -> i32 {
         if let Some(k) = findings.iter().find(|k| matches(k, &f, &run.property)) {
             let e = known_hits.entry(k.id.clone()).or_insert((k.summary.clone(), 0));
             e.1 += 1;
+            if let Ok(filter) = std::env::var("VERIF_DUMP_KNOWN") {
+                if f.detail.contains(&filter) || f.case.to_string().contains(&filter) {
+                    eprintln!("DUMP-KNOWN {} sig={} preds={:?}\n{}", k.id, f.sig, f.preds, f.detail);
+                }
+            }
         } else {
             unknown.push(f);
         }
